@@ -1,9 +1,47 @@
 // C05: feed a call sequence to a real SmodelsOutput, then read the written bytes back with SmodelsInput + Recorder.
 // Case: N e falseAtom <encoded calls>      e = 0/1: ext off/on, feeding stops at the first refusal (exception)
 //                                           e = 2/3: ext off/on, the caller CATCHES every refusal and continues with the same writer
+// Every other case that starts with initProgram is played on a writer object that has written another program before (primeWriter).
 // Observation: len bytes... ok  [continue mode: ncalls flag...]  <reader calls> status line nerr   (ok = 0 when the writer threw)
 #include "rec.h"
+#include "reuse.h"
 #include <potassco/smodels.h>
+// Writer REUSE: initProgram() starts a new program on the same SmodelsOutput object, which must then write like a new writer (same
+// extensions flag / false atom). For every other case that starts with an initProgram call (reuse::primed = bit 17 of the FNV-1a hash of
+// the whole case, so deterministic and replayable) the SAME writer object first writes another program whose text is thrown away; bits
+// 18..20 of the hash choose it: bit 18 = incremental (accepted only with the extensions; without them the refused initProgram(true) is
+// the "after a refused call" start), bits 19-20 = 0 complete (two steps when incremental) / 1 abandoned in the rule section (false atom
+// marked as used) / 2 abandoned behind the symbol table / 3 abandoned behind the compute statement and a refused output call.
+// Invisible for a correct writer (inc_ is assigned by initProgram, sec_ / fHead_ by beginStep), so model and oracle do not depend on it.
+static void primeWriter(Potassco::SmodelsOutput& out, bool ext, unsigned variant) {
+	using namespace Potassco;
+	const bool inc = (variant & 1u) != 0;
+	const unsigned stage = (variant >> 1) & 3u;
+	try { out.initProgram(inc); } catch (const std::exception&) { } // refused without the extensions
+	out.beginStep();
+	Atom_t h[] = {1}; Lit_t b[] = {2, -3};
+	out.rule(Head_t::Disjunctive, toSpan(h, 1), toSpan(b, 2));
+	try { out.rule(Head_t::Disjunctive, toSpan<Atom_t>(), toSpan(b, 2)); } catch (const std::exception&) { } // uses the false atom; refused without one
+	WeightLit_t w[] = {{1, 2}, {-2, 1}};
+	out.minimize(0, toSpan(w, 2));
+	if (ext) { out.external(4, Value_t::True); }
+	if (stage == 1) { return; }
+	Lit_t l1 = 1, l2 = 2, l3 = 3;
+	out.output(toSpan("pa", 2), toSpan(&l1, 1));
+	out.output(toSpan("pb", 2), toSpan(&l2, 1));
+	if (stage == 2) { return; }
+	Lit_t as[] = {1, -2};
+	out.assume(toSpan(as, 2));
+	try { out.output(toSpan("late", 4), toSpan(&l3, 1)); } catch (const std::exception&) { } // refused: symbol behind the compute statement
+	if (stage == 3) { return; }
+	out.endStep();
+	if (inc && ext) {
+		out.beginStep();
+		out.rule(Head_t::Choice, toSpan(h, 1), toSpan(b, 2));
+		out.external(4, Value_t::Release);
+		out.endStep();
+	}
+}
 static int g_line = 0, g_nerr = 0;
 static int onError(int line, const char*) { g_line = line; ++g_nerr; return 1000 + line; }
 int main() {
@@ -20,6 +58,10 @@ int main() {
 		int ok = 1;
 		{
 			Potassco::SmodelsOutput out(os, ext, fAtom);
+			if (c.more() && c.v[c.p] == 1 && reuse::primed(c)) {
+				try { primeWriter(out, ext, static_cast<unsigned>((reuse::hash(c) >> 18) & 7u)); } catch (...) { }
+				os.str(std::string());
+			}
 			if (!cont) {
 				try { while (playCall(c, out)) { ; } }
 				catch (const std::exception&) { ok = 0; }
